@@ -521,10 +521,11 @@ Lemma from_safe_parts : forall E, from_safe E = true ->
   forallb (fun kc => safe_payload_conv E (snd (snd kc))) (e_qfrom E) = true /\
   lookup "" (e_qfrom E) = None /\
   (exists t, lookup "zoekt.SearchOptions" (e_tables E) = Some t) /\
-  forallb (fun nt => t_from_nilsafe (snd nt)) (e_tables E) = true.
+  forallb (fun nt => t_from_nilsafe (snd nt)) (e_tables E) = true /\
+  forallb (fun no => not_panic (snd no)) (e_nilfrom E) = true.
 Proof.
   intros E H. unfold from_safe in H. repeat rewrite andb_true_iff in H.
-  destruct H as [[[[[[H1 H2] H3] H4] H5] H6] H7].
+  destruct H as [[[[[[[H1 H2] H3] H4] H5] H6] H7] H8].
   repeat split; try assumption.
   - destruct (e_qfrom_default_panics E); [discriminate|reflexivity].
   - destruct (lookup "" (e_qfrom E)); [discriminate|reflexivity].
@@ -565,7 +566,7 @@ Theorem from_no_panic : forall E, from_safe E = true ->
   forall v, wire_wf v = true -> forall c, safe_payload_conv E c = true ->
   (v <> VNil \/ safe_conv E c = true) -> forall w, apply E c v <> Panic w.
 Proof.
-  intros E HE. destruct (from_safe_parts E HE) as [Hns [Hdp [_ [Hq [Hq0 [_ _]]]]]].
+  intros E HE. destruct (from_safe_parts E HE) as [Hns [Hdp [_ [Hq [Hq0 [_ [_ Hnf]]]]]]].
   induction v using val_ind2; intros Hwf c Hc Hnil w;
     destruct c as [| |a1 b1| | | | |ps1 d1|c1|c1| | |[|] nl1 n1|f1|f1| | |s1|s1| | |ps1|ps1|w1];
     simpl in Hc; try discriminate.
@@ -573,7 +574,10 @@ Proof.
   all: try solve [shallow].
   - (* VNil, CRec false *)
     destruct Hnil as [Hnil|Hnil]; [exfalso; apply Hnil; reflexivity|]. simpl in Hnil. simpl. unfold rows_of.
-    destruct (lookup n1 (e_tables E)) as [t|]; [|discriminate]. rewrite Hnil. destruct nl1; discriminate.
+    destruct (lookup n1 (e_tables E)) as [t|]; [|discriminate]. rewrite Hnil. destruct nl1; [discriminate|].
+    destruct (lookup n1 (e_nilfrom E)) as [o|] eqn:Ho; [|discriminate].
+    pose proof (forallb_In _ _ (n1, o) Hnf (lookup_In _ _ _ Ho)) as Hnp. simpl in Hnp.
+    destruct o; [discriminate|discriminate|discriminate Hnp].
   - (* VNil, CQFrom *) simpl. rewrite Hns, Hdp. discriminate.
   - (* VNil, CFlagsFrom *)
     destruct Hnil as [Hnil|Hnil]; [exfalso; apply Hnil; reflexivity|discriminate].
@@ -628,7 +632,7 @@ Qed.
 
 Lemma safe_conv_rec : forall E nl n, from_safe E = true -> safe_conv E (CRec false nl n) = true.
 Proof.
-  intros E nl n H. destruct (from_safe_parts E H) as [_ [_ [_ [_ [_ [_ H7]]]]]]. simpl.
+  intros E nl n H. destruct (from_safe_parts E H) as [_ [_ [_ [_ [_ [_ [H7 _]]]]]]]. simpl.
   destruct (lookup n (e_tables E)) as [t|] eqn:Hl; [|reflexivity].
   apply (forallb_In _ _ (n, t) H7 (lookup_In _ _ _ Hl)).
 Qed.
